@@ -563,6 +563,7 @@ func eventStreamRun(keyed bool) func(h []dsim.Rec) {
 	cfg.idleTO = dsim.Pick(time.Duration(0), 0, 1500*time.Millisecond, 4*time.Second)
 	e := newEnv(cfg)
 	e.peerAPHeartbeats = cfg.srEnable && cfg.dialectKind == 0 && cfg.inKey == nil
+	e.slowLinks = true
 	e.w.ChunkMode = dsim.Choose(3)
 	e.w.SendBuf = dsim.Pick(1<<16, 4096, 300)
 	neps := 1 + dsim.Choose(depth(3, 5))
